@@ -23,7 +23,7 @@ func caseGen() *rapid.Generator[Case] {
 		max = 16
 	}
 	sg := gen.ScriptGen(gen.ScriptOpts{
-		AllowProps: true, AllowRowErr: true, Item: item(),
+		AllowProps: true, AllowRowErr: true, HeavyTail: 12, Item: item(),
 		AllowMutate: true,
 		AllowCopy:   true,
 		MinOps:      1,
@@ -41,6 +41,7 @@ func caseGen() *rapid.Generator[Case] {
 			c.Align = rapid.SliceOfN(rapid.IntRange(0, 3), 1, 6).Draw(t, "align") // the rectangle holds under every alignment
 		}
 		c.Renders = rapid.IntRange(1, 3).Draw(t, "renders")
+		c.AppCB = rapid.SampledFrom([]int{0, 0, 0, 1, 1, 2}).Draw(t, "appcb")
 		if rapid.IntRange(0, 3).Draw(t, "pre?") == 0 {
 			c.Pre = 1 + rapid.IntRange(0, len(c.Script.Ops)).Draw(t, "pre")
 		}
